@@ -1,6 +1,151 @@
-From Coq Require Import List NArith Bool.
+(* C20 - Log sanitiser never emits values of sensitive keys.
+   Property theorems only; each is closed by [exact] of a lemma from Proofs/C20.v and
+   followed by Print Assumptions.  [sensitive_code] runs the regex-subset matcher on the
+   pattern table, flags and re method REGENERATED from /repo (Gen/C20_LogKeys.v), so every
+   theorem that mentions it is re-checked against what log_formatter.py says now. *)
+From Coq Require Import List NArith Bool String.
 From Orso Require Import Gen.C20_LogKeys Model.C20 Proofs.C20.
 Import ListNotations.
+Local Open Scope N_scope.
 
-Theorem C20_stub : True. Proof. exact placeholder_true. Qed.
-Print Assumptions C20_stub.
+(* Every key the property calls sensitive (lower-cased it ends in password / pwd / _secret /
+   _key / _token or contains credentials) is matched by the live pattern table. *)
+Theorem C20_sensitive_keys_are_matched :
+  forall k : text, sensitive_spec k = true -> sensitive_code k = true.
+Proof. exact spec_implies_code. Qed.
+Print Assumptions C20_sensitive_keys_are_matched.
+
+(* Exact characterisation of what the live table matches: the property's keys, plus those
+   same suffixes followed by one final newline ('$' matches before a trailing newline). *)
+Theorem C20_key_classifier_exact :
+  forall k : text,
+  sensitive_code k =
+  sensitive_spec k || existsb (fun s => ends_with (s ++ [10]) (lower k)) spec_suffixes.
+Proof. exact key_characterised. Qed.
+Print Assumptions C20_key_classifier_exact.
+
+(* Look-alike direction: a key that does not end in a newline is matched only if the
+   property calls it sensitive - values under other keys are not redacted. *)
+Theorem C20_only_sensitive_keys_are_matched :
+  forall k : text, ends_with [10] k = false -> sensitive_code k = sensitive_spec k.
+Proof. exact code_iff_spec. Qed.
+Print Assumptions C20_only_sensitive_keys_are_matched.
+
+Theorem C20_lookalikes_not_matched :
+  forallb (fun k => negb (sensitive_code k))
+    (map T ["passwor"; "passwords"; "password_hint"; "pass_word"; "pwd1"; "pwds"; "p_wd"; "secret"; "secrets";
+            "_secrets"; "topsecret"; "key"; "keys"; "monkey"; "keyboard"; "_keys"; "_key_id"; "token"; "tokens";
+            "_tokens"; "_tokenized"; "credential"; "credentialz"; "cred"; "user"; "name"; "message"; ""]%string) = true.
+Proof. exact lookalikes_clear. Qed.
+Print Assumptions C20_lookalikes_not_matched.
+
+(* For every JSON tree and every object path p ++ [i] whose last step is the first sensitive
+   key on it: the cleaned tree holds, at that position, a placeholder made from the digest of
+   str(subtree) alone, and nothing exists below it.  str(), the digest and the quote colouring
+   are arbitrary functions. *)
+Theorem C20_clean_redacts :
+  forall (str_of : json -> text) (digest colq : text -> text)
+         (j : json) (p : list nat) (i : nat) (kvs : list (text * json)) (k : text) (v : json),
+  forallb (fun k => negb (sensitive_spec k) && negb (ends_with [10] k)) (jkeys p j) = true ->
+  jget p j = Some (JObj kvs) -> nth_error kvs i = Some (k, v) -> sensitive_spec k = true ->
+  cget (p ++ [i]) (clean_val sensitive_code str_of digest colq j) = Some (CRedacted (digest (str_of v))) /\
+  forall q, q <> [] -> cget ((p ++ [i]) ++ q) (clean_val sensitive_code str_of digest colq j) = None.
+Proof. exact clean_redacts_spec. Qed.
+Print Assumptions C20_clean_redacts.
+
+(* Non-interference, on the dict of strings clean_record returns (hence on everything
+   rendered from it): replacing the value under a sensitive key by any other value with the
+   same digest does not change the output at all. *)
+Theorem C20_output_depends_on_secret_only_through_digest :
+  forall (digest : text -> text) (colorize : bool) (o : obj) (p : list nat) (i : nat)
+         (kvs : list (text * json)) (k : text) (v0 v1 v2 : json),
+  forallb (fun k => negb (sensitive_spec k) && negb (ends_with [10] k)) (jkeys p (JObj o)) = true ->
+  jget p (JObj o) = Some (JObj kvs) -> nth_error kvs i = Some (k, v0) -> sensitive_spec k = true ->
+  digest (py_str v1) = digest (py_str v2) ->
+  clean_record_model digest colorize (record_of (jset (p ++ [i]) v1 (JObj o))) =
+  clean_record_model digest colorize (record_of (jset (p ++ [i]) v2 (JObj o))).
+Proof. exact output_depends_on_digest_only. Qed.
+Print Assumptions C20_output_depends_on_secret_only_through_digest.
+
+(* Everything reached through non-sensitive keys is kept: a leaf as the coloured str() of
+   itself, an object as an object with the same keys in the same order. *)
+Theorem C20_other_values_kept :
+  forall (str_of : json -> text) (digest colq : text -> text) (j : json) (p : list nat) (v : json),
+  forallb (fun k => negb (sensitive_spec k) && negb (ends_with [10] k)) (jkeys p j) = true ->
+  jget p j = Some v ->
+  cget p (clean_val sensitive_code str_of digest colq j) =
+    Some (match v with
+          | JObj kvs => CObj (clean_obj sensitive_code str_of digest colq kvs)
+          | _ => CLeaf (colq (str_of v))
+          end) /\
+  forall kvs, map fst (clean_obj sensitive_code str_of digest colq kvs) = map fst kvs.
+Proof. exact clean_keeps_spec. Qed.
+Print Assumptions C20_other_values_kept.
+
+(* sanitize_record: whenever the colour-coded record is pre ++ m with pre empty or ending in
+   '|' and m parses as a JSON object, the raw fall-back branch is not taken: the output is the
+   untouched leading fields followed by the dump of the CLEANED object parsed from a tail of
+   the record ('|' inside the message does not defeat it).  json.loads is the parameter [parse]. *)
+Theorem C20_json_tail_is_cleaned :
+  forall (parse : text -> option obj) (digest : text -> text) (can : bool) (record pre m : text) (o : obj),
+  color_code can record = pre ++ m ->
+  (pre = [] \/ exists pre', pre = pre' ++ [bar]) -> parse m = Some o ->
+  exists (i : nat) (o' : obj),
+    parse (join [bar] (skipn i (split bar (color_code can record)))) = Some o' /\
+    sanitize_core sensitive_code parse digest can record =
+      join [bar] (firstn i (split bar (color_code can record)) ++
+                  [T " " ++ json_dumps_flat (render_obj colours_on
+                     (clean_obj sensitive_code py_str digest (colour_quotes colours_on) o'))]).
+Proof. exact (sanitize_clean_branch sensitive_code). Qed.
+Print Assumptions C20_json_tail_is_cleaned.
+
+(* URL step of format(): user-info (anything without '@' and newline, so user ++ ":" ++ password)
+   after the first "://" is replaced by the fixed mark; the rest is processed the same way. *)
+Theorem C20_url_userinfo_removed :
+  forall pre userinfo post : text,
+  contains [58; 47; 47] pre = false ->
+  existsb (fun c => (c =? 64) || (c =? 10)) userinfo = false ->
+  url_step (pre ++ [58; 47; 47] ++ userinfo ++ [64] ++ post) = pre ++ C20_url_replacement ++ url_step post.
+Proof. exact url_hides. Qed.
+Print Assumptions C20_url_userinfo_removed.
+
+(* Finding F-C20-4: the full statement "for all paths through a sensitive key" fails for paths
+   that pass through an array: clean_record str()-s arrays, objects inside them are not cleaned. *)
+Theorem C20_objects_inside_arrays_refuted :
+  exists (secret : text) (o : obj),
+    o = [(T "items", JArr [JObj [(T "password", JStr secret)]])] /\
+    sensitive_spec (T "password") = true /\
+    contains secret (json_dumps_flat (clean_record_model (fun _ => T "00000000") false o)) = true.
+Proof. exact array_members_not_cleaned. Qed.
+Print Assumptions C20_objects_inside_arrays_refuted.
+
+(* Non-vacuity. *)
+Definition ex_record : obj :=
+  [(T "user", JStr (T "bob"));
+   (T "cfg", JObj [(T "DB_Password", JObj [(T "inner", JStr (T "s3cret"))]); (T "port", JNum (T "5432"))])].
+
+Example C20_nonvacuous_clean :
+  forallb (fun k => negb (sensitive_spec k) && negb (ends_with [10] k)) (jkeys [1%nat] (JObj ex_record)) = true /\
+  (exists kvs v, jget [1%nat] (JObj ex_record) = Some (JObj kvs) /\ nth_error kvs 0 = Some (T "DB_Password", v)) /\
+  sensitive_spec (T "DB_Password") = true /\
+  clean_record_model (fun _ => T "0a1b2c3d") false ex_record =
+    [(T "user", T "bob"); (T "cfg", T "{'DB_Password': '<redacted:0a1b2c3d>', 'port': '5432'}")].
+Proof. repeat split; try reflexivity. eexists _, _. split; reflexivity. Qed.
+
+Example C20_nonvacuous_keys :
+  map sensitive_code (map T ["db_password"; "my_PWD"; "client_secret"; "API_KEY"; "x_token"; "aws_credentials_file";
+                             "password_hint"; "monkey"; "token"]%string) =
+  [true; true; true; true; true; true; false; false; false].
+Proof. vm_compute. reflexivity. Qed.
+
+Example C20_nonvacuous_url :
+  contains [58; 47; 47] (T "connect postgres") = false /\
+  existsb (fun c => (c =? 64) || (c =? 10)) (T "alice:s3cret") = false /\
+  url_step (T "connect postgres://alice:s3cret@db/x") = T "connect postgres" ++ C20_url_replacement ++ T "db/x".
+Proof. repeat split; vm_compute; reflexivity. Qed.
+
+Example C20_nonvacuous_tail :
+  let parse := fun s => if teqb s (T " {""password"": ""a|b""}") then Some [(T "password", JStr (T "a|b"))] else None in
+  sanitize_core sensitive_code parse (fun _ => T "0a1b2c3d") false (T "app | ERROR | {""password"": ""a|b""}") =
+  T "app | ERROR | {""\u0001KEYmpassword\u0001OFFm"": ""\u0001VALUEm\u0001PURPLEm<redacted:0a1b2c3d>\u0001OFFm\u0001OFFm""}".
+Proof. vm_compute. reflexivity. Qed.
